@@ -72,9 +72,14 @@ for c in mutants.CONTROLS:
         continue
     f = os.path.join(REPO, c['file'])
     s = open(f).read()
-    if s.count(c['old']) != 1:
-        report(c['name'], False, 'anchor text not found'); continue
-    s = s.replace(c['old'], c['new'])
+    if c.get('regex'):
+        if not re.search(c['old'], s):
+            report(c['name'], False, 'anchor regex not found'); continue
+        s = re.sub(c['old'], c['new'], s)
+    else:
+        if s.count(c['old']) < 1:
+            report(c['name'], False, 'anchor text not found'); continue
+        s = s.replace(c['old'], c['new'])
     if c['name'] in mutants.EXTRA_FILES:
         ef, eo, en = mutants.EXTRA_FILES[c['name']]
         assert ef == c['file'] and s.count(eo) == 1
